@@ -366,6 +366,9 @@ func init() {
 			for i := 0; i < 16; i++ {
 				s := d.NewSpec("crash", fmt.Sprintf("crash-%d", i), i, 16)
 				s.TimeoutS = int(d.Pick(300, 1800))
+				if z := []string{"", "America/Los_Angeles", "", "Pacific/Kiritimati"}[i%4]; z != "" {
+					s.Env = []string{"TZ=" + z} // children inherit it: rolling kinds with a 1 h retention far from UTC
+				}
 				specs = append(specs, s)
 			}
 			d.RunWorkers(specs, 16)
